@@ -264,7 +264,8 @@ func genDoc(r *common.Rng, cfg genCfg) doc {
 				}
 			}
 			if cfg.recursive {
-				s.Props = append(s.Props, prop{Name: "next", T: ptype{Kind: "ref", Ref: n}})
+				// a fresh name: a derived XSD type must not redeclare an element of its base
+				s.Props = append(s.Props, prop{Name: g.fresh("next"), T: ptype{Kind: "ref", Ref: n}})
 			}
 			if len(s.Props) == 0 {
 				s.Base = ""
